@@ -61,6 +61,10 @@ func runC07(p *chk.Prog, r *chk.Report) {
 	// a request that is refused after its addresses were assigned gives them back (REQUEST-IPS, shared with C02): a
 	// leaked allocation starves the Services for which that address is the only admissible one
 	c02Requests(p, r)
+	c02SameIPs(p, r)
+	// a released allocation leaves nothing behind (UNASSIGN-COMPLETE, shared with C11): a ghost tenant or sharing key
+	// makes the address unusable for every later Service
+	unassignCompleteRule(p, r)
 }
 
 func c07Release(p *chk.Prog, r *chk.Report) {
@@ -166,6 +170,31 @@ func c07Release(p *chk.Prog, r *chk.Report) {
 			x.Check("SetBalancer:release-result-sticks", posOf(w4, f), !w4.Found, "", "after a release the result can be overwritten or a different result returned: "+describe(f, w4))
 		}
 	}
+	// (e) a changed allocation key (sharing / backend key gained, lost or replaced while the address stayed) lets waiting
+	// Services share the address, or stops them: exactly `key before converge != key after` requests the full re-sync
+	keyOf := definedBy(g, "RECV.ips.AllocationKey(N)", chk.H("N", name))
+	changed := chk.GSame(g.GPat(true, "A != B", chk.H("A", keyOf), chk.H("B", keyOf)))
+	ke := g.EdgesImplying(changed)
+	okKey := len(ke) >= 1
+	for _, e := range ke {
+		// nothing else decides: the other edge of that test means "unchanged"
+		if !g.EdgeImplies(e.B, 1-e.K, chk.GNot(changed)) {
+			okKey = false
+		}
+		if g.BranchAlways(e, setRA).Found {
+			okKey = false
+		}
+	}
+	// one key is read before convergeBalancer, the other after
+	nBefore, nAfter := 0, 0
+	for _, c := range g.FindPat("RECV.ips.AllocationKey(N)", chk.H("N", name)) {
+		if (&chk.Walk{G: g, From: c, Hit: func(n ast.Node) bool { return n == conv[0].Top }}).Run().Found {
+			nBefore++
+		} else {
+			nAfter++
+		}
+	}
+	x.Check("SetBalancer:key-change-requests-reprocess", f.Pos(), okKey && nBefore >= 1 && nAfter >= 1, "", "a Service whose allocation key changed while it kept its address (it started or stopped sharing) does not request a full re-sync under exactly that condition: Services waiting to share the address stay pending")
 	// releasedIPs: true exactly when some previous address p equals none of the current ones
 	rf := need(x, p, "controller", "", "releasedIPs")
 	if rf != nil {
